@@ -1,7 +1,246 @@
-(* Property C14 -- stub while the proofs are being developed. *)
-From Coq Require Import ZArith List.
-From Inf Require Import gen.ParamsC14 model.StoreM proofs.StoreP.
+(* Property C14 -- stored paths read back unchanged; live paths never lose files.
+   This file only restates results proved in proofs/StoreP.v (and, for the written precision,
+   in proofs/CodecP.v of C19) so that the statements cannot be weakened silently; each is
+   followed by Print Assumptions.  Model: model/StoreM.v.  All theorems are unbounded. *)
+From Coq Require Import ZArith QArith Qabs List Bool Lia.
+Import ListNotations.
+From Inf Require Import gen.ParamsC14 model.CodecM proofs.CodecP model.StoreM proofs.StoreP.
 Open Scope Z_scope.
-Theorem C14_params_pinned : order_d = 6%nat /\ energy_d = 6%nat /\ guard_off = 2 /\ lag_off = 2 /\ push_off = 2.
+
+(* the constants and formats of /repo the statements below are about (regenerated from the
+   sources on every run: editing one of them re-opens this obligation) *)
+Theorem C14_params_pinned :
+  order_d = 6%nat /\ energy_d = 6%nat /\ order_w = 12%nat /\ energy_w = 14%nat /\
+  traj_none_idx = 0 /\ traj_rev_val = -1 /\ traj_fwd_val = 1 /\
+  guard_off = 2 /\ lag_off = 2 /\ push_off = 2.
 Proof. repeat split; reflexivity. Qed.
 Print Assumptions C14_params_pinned.
+
+(* ------------------------------------------------------------------ (1) store, then load *)
+
+(* PathStorage.output first removes what it finds in the target directory (fix 5456497 in /repo).
+   The model has both variants: [store_gen false] removes everything -- also a file the path
+   being stored refers to --, [store_gen true] (proposed_fixes/C14_store_keeps_own_files.diff)
+   spares those.  The statements below are for the repaired code; this obligation says that
+   /repo is the repaired code (it fails to check while /repo is not: see C14_inplace_refuted). *)
+Theorem C14_store_is_repaired : store = store_gen true.
+Proof. reflexivity. Qed.
+Print Assumptions C14_store_is_repaired.
+
+(* For ANY disk, step number, move text, home directory, path number, keep_traj_fnames list and
+   path: if
+     - the path is not empty, the move text has no line break,
+     - every frame's file has a non-empty base name without white space,
+     - all frames have the same number of order columns,
+     - the kept extensions contain no "/", every source file exists,
+     - no file that is moved is one of the three text files just written,
+   and PathStorage.output succeeds, then load_path on the path's directory succeeds and returns,
+   frame by frame, [reload]: the base name re-rooted under <home>/<n>/accepted/, the index
+   (None -> 0), the velocity direction, every order value rounded to the written decimals,
+   vpot/ekin rounded likewise, absent (None) energies as NaN. *)
+Theorem C14_store_load_roundtrip :
+  forall (d : fsmap) (step : Z) (move home : str) (pn : Z) (keep : list str) (p : list frame) (ncol : nat),
+  p <> [] -> nonl move -> Forall name_ok p ->
+  Forall (fun fr => length (f_orders fr) = ncol) p ->
+  Forall no_slash keep ->
+  Forall (fun fr => isfile d (f_file fr) = true) p ->
+  txt_untouched (move_list (write_txt (clean_dir true (accepted_dir (archive_dir home pn)) p d) (archive_dir home pn) step move p)
+                           (accepted_dir (archive_dir home pn)) keep p) (archive_dir home pn) ->
+  forall d' cfg, store_gen true d step move home pn keep p = Some (d', cfg) ->
+  load d' (archive_dir home pn) = Some (map (reload (archive_dir home pn)) p).
+Proof. exact roundtrip_repaired. Qed.
+Print Assumptions C14_store_load_roundtrip.
+
+(* both variants: the same, with "every source file exists" read on the disk after the leftovers
+   were removed (for [ko = false]: no source file lies directly in the target directory) *)
+Theorem C14_store_load_roundtrip_guarded :
+  forall (ko : bool) (d : fsmap) (step : Z) (move home : str) (pn : Z) (keep : list str) (p : list frame) (ncol : nat),
+  p <> [] -> nonl move -> Forall name_ok p ->
+  Forall (fun fr => length (f_orders fr) = ncol) p ->
+  Forall no_slash keep ->
+  Forall (fun fr => isfile (clean_dir ko (accepted_dir (archive_dir home pn)) p d) (f_file fr) = true) p ->
+  txt_untouched (move_list (write_txt (clean_dir ko (accepted_dir (archive_dir home pn)) p d) (archive_dir home pn) step move p)
+                           (accepted_dir (archive_dir home pn)) keep p) (archive_dir home pn) ->
+  forall d' cfg, store_gen ko d step move home pn keep p = Some (d', cfg) ->
+  load d' (archive_dir home pn) = Some (map (reload (archive_dir home pn)) p).
+Proof. exact store_load_roundtrip. Qed.
+Print Assumptions C14_store_load_roundtrip_guarded.
+
+(* the unrepaired variant violates the full statement: a path stored again in its own directory *)
+Theorem C14_inplace_refuted :
+  exists d p d' cfg,
+    p <> [] /\ Forall name_ok p /\ Forall (fun fr => length (f_orders fr) = 1%nat) p /\
+    Forall (fun fr => isfile d (f_file fr) = true) p /\ distinct_basenames p /\
+    (forall fr, In fr p -> ~ In (f_file fr) (txt_files (archive_dir [108] 3))) /\
+    store_gen false d 7 [115; 104] [108] 3 [] p = Some (d', cfg) /\ load d' (archive_dir [108] 3) = None /\
+    exists d2 cfg2, store_gen true d 7 [115; 104] [108] 3 [] p = Some (d2, cfg2) /\
+                    load d2 (archive_dir [108] 3) = Some (map (reload (archive_dir [108] 3)) p).
+Proof. exact inplace_refuted. Qed.
+Print Assumptions C14_inplace_refuted.
+
+(* what [reload] promises, spelled out *)
+Theorem C14_reload_frame : forall pdir fr,
+  l_file (reload pdir fr) = pjoin (pjoin pdir acc_dir) (basename (f_file fr)) /\
+  l_idx (reload pdir fr) = match f_idx fr with None => 0 | Some k => k end /\
+  l_rev (reload pdir fr) = f_rev fr /\
+  length (l_orders (reload pdir fr)) = length (f_orders fr) /\
+  (forall k v q, nth_error (f_orders fr) k = Some (Some v) -> nth_error (l_orders (reload pdir fr)) k = Some (Some q) ->
+     (Qabs (q - snd v) <= 1 # 2000000)%Q) /\
+  (forall k, nth_error (f_orders fr) k = Some None -> nth_error (l_orders (reload pdir fr)) k = Some None) /\
+  (forall v, f_vpot fr = Some v -> exists q, l_vpot (reload pdir fr) = Some (Some q) /\ (Qabs (q - snd v) <= 1 # 2000000)%Q) /\
+  (f_vpot fr = None -> l_vpot (reload pdir fr) = Some None) /\
+  (forall v, f_ekin fr = Some v -> exists q, l_ekin (reload pdir fr) = Some (Some q) /\ (Qabs (q - snd v) <= 1 # 2000000)%Q) /\
+  (f_ekin fr = None -> l_ekin (reload pdir fr) = Some None).
+Proof. exact reload_frame_spec. Qed.
+Print Assumptions C14_reload_frame.
+
+(* the round trip does not depend on the field width; inside the width guard of C19 the field
+   is exactly as wide as the format says (the columns stay aligned) *)
+Theorem C14_width_guard : forall nz x,
+  width_guard order_w order_d nz x = true <-> length (print_field order_w order_d (Some (nz, x))) = order_w.
+Proof. exact width_guard_field. Qed.
+Print Assumptions C14_width_guard.
+
+(* ------------------------------------------------------------------ (2) referenced files exist *)
+
+Theorem C14_stored_files_exist :
+  forall (d : fsmap) (step : Z) (move home : str) (pn : Z) (keep : list str) (p : list frame),
+  Forall no_slash keep ->
+  Forall (fun fr => isfile d (f_file fr) = true) p ->
+  forall d' cfg, store_gen true d step move home pn keep p = Some (d', cfg) ->
+  forall lf, In lf (map (reload (archive_dir home pn)) p) ->
+  exists s, In (s, l_file lf) (move_list (write_txt (clean_dir true (accepted_dir (archive_dir home pn)) p d) (archive_dir home pn) step move p)
+                                          (accepted_dir (archive_dir home pn)) keep p) /\
+            l_file lf = pjoin (accepted_dir (archive_dir home pn)) (basename s) /\
+            isfile d' (l_file lf) = true.
+Proof. exact files_exist_repaired. Qed.
+Print Assumptions C14_stored_files_exist.
+
+(* with the explicit hypothesis that distinct source files of the path have distinct base names
+   (no keep_traj_fnames), every referenced file holds exactly what its source held *)
+Theorem C14_stored_content_distinct_basenames :
+  forall (d : fsmap) (step : Z) (move home : str) (pn : Z) (p : list frame),
+  distinct_basenames p ->
+  (forall fr, In fr p -> ~ In (f_file fr) (txt_files (archive_dir home pn))) ->
+  forall d' cfg, store_gen true d step move home pn [] p = Some (d', cfg) ->
+  forall fr, In fr p -> fs_get d' (l_file (reload (archive_dir home pn) fr)) = fs_get d (f_file fr).
+Proof. exact stored_content_distinct. Qed.
+Print Assumptions C14_stored_content_distinct_basenames.
+
+(* the general form: distinct destinations of everything that is moved *)
+Theorem C14_stored_content :
+  forall (d : fsmap) (step : Z) (move home : str) (pn : Z) (keep : list str) (p : list frame),
+  Forall no_slash keep ->
+  txt_untouched (move_list (write_txt (clean_dir true (accepted_dir (archive_dir home pn)) p d) (archive_dir home pn) step move p)
+                           (accepted_dir (archive_dir home pn)) keep p) (archive_dir home pn) ->
+  forall d' cfg, store_gen true d step move home pn keep p = Some (d', cfg) ->
+  NoDup (map snd (move_list (write_txt (clean_dir true (accepted_dir (archive_dir home pn)) p d) (archive_dir home pn) step move p)
+                            (accepted_dir (archive_dir home pn)) keep p)) ->
+  forall fr, In fr p -> fs_get d' (dst (accepted_dir (archive_dir home pn)) (f_file fr)) = fs_get d (f_file fr).
+Proof. exact content_repaired. Qed.
+Print Assumptions C14_stored_content.
+
+(* without that hypothesis the statement is false: two source files w0/a and w1/a *)
+Theorem C14_collision_refuted :
+  exists d step move home pn p d' cfg fr,
+    Forall (fun fr => isfile d (f_file fr) = true) p /\ store_gen true d step move home pn [] p = Some (d', cfg) /\
+    load d' (archive_dir home pn) = Some (map (reload (archive_dir home pn)) p) /\
+    In fr p /\ fs_get d' (l_file (reload (archive_dir home pn) fr)) <> fs_get d (f_file fr).
+Proof. exact collision_refuted. Qed.
+Print Assumptions C14_collision_refuted.
+
+(* non-vacuity of group (1)/(2): a two-file path with a reversed frame, index None, a missing
+   energy, a tie of the sixth decimal and a value beyond the field width meets every hypothesis *)
+Example C14_example_store :
+  exists d p d' cfg,
+    p <> [] /\ Forall name_ok p /\ Forall (fun fr => length (f_orders fr) = 2%nat) p /\
+    Forall (fun fr => isfile d (f_file fr) = true) p /\ distinct_basenames p /\
+    store_gen true d 7 [115; 104] [108] 3 [] p = Some (d', cfg) /\
+    load d' (archive_dir [108] 3) = Some (map (reload (archive_dir [108] 3)) p) /\ length p = 3%nat.
+Proof. exact example_store. Qed.
+
+(* ------------------------------------------------------------------ (3) deletion *)
+
+(* Histories: any sequence of accepted ensembles (MItem old ...), ends of treat_output (MEnd)
+   and restarts at step boundaries (MRestart), for every n and both flags; [valid]: the replaced
+   path is live and one treat_output call handles at most kmax <= n - 1 ensembles (2 in infretis,
+   n >= 3).  [wf st0]: numbers in use are below traj_num and the live paths are complete. *)
+
+Theorem C14_delete_safe :
+  forall (delete_old delete_all : bool) (n : Z) (kmax : nat), Z.of_nat kmax <= n - lag_off + 1 ->
+  forall st0 st o pd, wf n st0 -> reach delete_old delete_all n kmax st0 st -> valid kmax st o ->
+  In (EDel pd) (snd (mstep delete_old delete_all n st o)) ->
+  (* not live before, not in restart.toml on disk, not live after (hence not in the restart
+     record written at the end of the step), not an initial path *)
+  ~ In pd (live st) /\ ~ In pd (rec_ st) /\ ~ In pd (live (fst (mstep delete_old delete_all n st o))) /\ n - guard_off < pd /\
+  (* and every live path / path of the restart record still has all its files *)
+  (forall p, In p (live (fst (mstep delete_old delete_all n st o))) \/ In p (rec_ st) ->
+             complete (dirs (fst (mstep delete_old delete_all n st o))) p).
+Proof. exact reach_delete_safe. Qed.
+Print Assumptions C14_delete_safe.
+
+Theorem C14_live_paths_complete :
+  forall (delete_old delete_all : bool) (n : Z) (kmax : nat), Z.of_nat kmax <= n - lag_off + 1 ->
+  forall st0 st, wf n st0 -> reach delete_old delete_all n kmax st0 st -> dead st = false ->
+  forall p, In p (live st) \/ In p (rec_ st) -> complete (dirs st) p.
+Proof. exact reach_live_complete. Qed.
+Print Assumptions C14_live_paths_complete.
+
+Theorem C14_deleted_never_returns :
+  forall (delete_old delete_all : bool) (n : Z) (kmax : nat), Z.of_nat kmax <= n - lag_off + 1 ->
+  forall st0 st o pd st2, wf n st0 -> reach delete_old delete_all n kmax st0 st -> valid kmax st o ->
+  In (EDel pd) (snd (mstep delete_old delete_all n st o)) ->
+  reach delete_old delete_all n kmax (fst (mstep delete_old delete_all n st o)) st2 ->
+  ~ In pd (live st2) /\ ~ In pd (rec_ st2) /\
+  forall o2 old nw, valid kmax st2 o2 -> In (ERepl old nw) (snd (mstep delete_old delete_all n st2 o2)) -> nw <> pd.
+Proof. exact deleted_never_returns. Qed.
+Print Assumptions C14_deleted_never_returns.
+
+Theorem C14_new_number_fresh :
+  forall (delete_old delete_all : bool) (n : Z) (kmax : nat), Z.of_nat kmax <= n - lag_off + 1 ->
+  forall st0 st o old nw, wf n st0 -> reach delete_old delete_all n kmax st0 st -> valid kmax st o ->
+  In (ERepl old nw) (snd (mstep delete_old delete_all n st o)) ->
+  nw = next st /\ ~ In nw (live st) /\ ~ In nw (queue st) /\ ~ In nw (rec_ st) /\ ~ In nw (map fst (dirs st)) /\
+  (dead (fst (mstep delete_old delete_all n st o)) = false -> next (fst (mstep delete_old delete_all n st o)) = nw + 1).
+Proof. exact new_number_fresh. Qed.
+Print Assumptions C14_new_number_fresh.
+
+Theorem C14_numbers_increase : forall (delete_old delete_all : bool) (n : Z) st o,
+  next st <= next (fst (mstep delete_old delete_all n st o)).
+Proof. exact next_monotone. Qed.
+Print Assumptions C14_numbers_increase.
+
+(* the lag, for EVERY sequence of operations (no side condition): whenever the files of a path
+   are removed, that path was replaced earlier in this run segment and at least n - 1 further
+   replacements happened in between (restarts empty the queue: older replaced paths are kept) *)
+Theorem C14_delete_lag :
+  forall (delete_old delete_all : bool) (n : Z) ops lv nx ds evA pd evB,
+  snd (mrun delete_old delete_all n (init_state lv nx ds) ops) = evA ++ EDel pd :: evB ->
+  exists e1 nw e2, evA = e1 ++ ERepl pd nw :: e2 /\ n - 1 <= Z.of_nat (count_repl e2).
+Proof. exact lag_from_start_n1. Qed.
+Print Assumptions C14_delete_lag.
+
+Theorem C14_initial_state_wf : forall n lv nx ds,
+  (forall p, In p lv -> p < nx) -> (forall p, In p (map fst ds) -> p < nx) -> (forall p, In p lv -> complete ds p) ->
+  wf n (init_state lv nx ds).
+Proof. exact init_state_wf. Qed.
+Print Assumptions C14_initial_state_wf.
+
+(* observation O2 (outside the statement): delete_old_all with files kept by keep_traj_fnames
+   ends in os.rmdir of a non-empty directory -- the machine reaches its dead state *)
+Theorem C14_O2_rmdir_nonempty :
+  exists ops, dead (fst (mrun true true 4 o2_st0 ops)) = true /\ In ECrash (snd (mrun true true 4 o2_st0 ops)).
+Proof. exact o2_witness. Qed.
+Print Assumptions C14_O2_rmdir_nonempty.
+
+(* non-vacuity of group (3): 3 ensembles (n = 4), delete_old: the start state is well formed, two
+   ensembles per step are allowed, and after four later replacements path 3 is deleted *)
+Example C14_example_delete :
+  let st0 := o2_st0 in   (* init_state [0; 1; 2] 3 [(0, full_dir 1); (1, full_dir 1); (2, full_dir 1)] *)
+  let ops := [MItem 0 2 0; MEnd; MItem 3 2 0; MItem 1 2 0; MEnd; MItem 4 2 0; MEnd; MRestart; MItem 6 2 0; MEnd; MItem 7 2 0; MEnd;
+              MItem 8 2 0; MItem 5 2 0; MEnd; MItem 9 2 0; MEnd] in
+  wf 4 st0 /\ Z.of_nat 2 <= 4 - lag_off + 1 /\
+  snd (mrun true false 4 st0 ops) =
+    [ERepl 0 3; ERepl 3 4; ERepl 1 5; ERepl 4 6; ERepl 6 7; ERepl 7 8; ERepl 8 9; ERepl 5 10; EDel 6; ERepl 9 11; EDel 7] /\
+  live (fst (mrun true false 4 st0 ops)) = [11; 10; 2].
+Proof. exact example_delete. Qed.
